@@ -2021,7 +2021,7 @@ def _time_per(M, fr, n, a):
     if x not in ns or y not in ns or ns[y] % ns[x]: raise Unsupported('time::convert %s per %s' % (x, y))
     return ns[y] // ns[x]
 
-@reg(r'^core::str::<impl str>::eq_ignore_ascii_case$|^std::string::String::eq_ignore_ascii_case$|^core::slice::ascii::<impl \[u8\]>::eq_ignore_ascii_case$')
+@reg(r'^core::str::<impl str>::eq_ignore_ascii_case$|^std::string::String::eq_ignore_ascii_case$|^core::slice::ascii::<impl \[u8\]>::eq_ignore_ascii_case$|^std::ffi::OsStr::eq_ignore_ascii_case(::<.*>)?$')
 def _eq_ignore_ascii_case(M, fr, n, a):
     x, y = as_str(M, a[0]), as_str(M, a[1])
     if isinstance(x, SymStr) or isinstance(y, SymStr): raise Unsupported('eq_ignore_ascii_case on an opaque string')
